@@ -242,17 +242,28 @@ def r18_2(ctx):
                 rv = p.ret()
                 none = (rv[0] == 'agg' and rv[1].endswith('::None')) or (is_call(rv, 'from_residual') and 'std::option::Option<T> as' in rv[1])     # `?` on None returns None
                 outs.add('None' if none else fmt(rv)[:40])
+        if outs != {'None'}:
+            # second reading through the std combinators (`pos.and_then(|pos| ..)`): the virtual paths on which the state is None
+            import vsplit
+            vouts = set()
+            for p in vsplit.vpaths(lib, acc, enter=True, havoc=False):
+                if any(d[2][0] == 'discr' and d[2][1][0] == 'param' and d[3] == 0 for d in p.cdecisions()):
+                    rv = p.ret()
+                    vouts.add('None' if (rv[0] == 'agg' and rv[1].endswith('::None')) else fmt(rv)[:40])
+            if vouts:
+                outs = vouts
         ctx.check(R, outs == {'None'}, 'Str:dead-closed', 'from the dead state (None) accept must stay dead: %s' % sorted(outs), fn=acc)
         r = [p.ret() for p in explore(im, max_visits=1) if p.end == 'return']
         ok = len(r) == 1 and is_call(r[0], 'PartialEq>::eq') and r[0][2][0][0] == 'param' and r[0][2][1][0] == 'agg' and r[0][2][1][1].endswith('::Some')
         ctx.check(R, ok, 'Str:dead-not-match', 'the dead state (None) must not match: is_match must compare the state with Some(..): %s' % [fmt(x)[:60] for x in r], fn=im)
         # advancing requires the byte at the current position to equal the input byte
         adv = False
-        for p in explore(acc, max_visits=1):
-            if p.end == 'return':
+        import vsplit as _vs
+        for p in list(explore(acc, max_visits=1)) + list(_vs.vpaths(lib, acc, enter=True, havoc=False)):
+            if getattr(p, 'end', 'return') == 'return':
                 rv = p.ret()
                 if rv[0] == 'agg' and rv[1].endswith('::Some'):
-                    d = [x for x in p.decisions if (is_call(x[2], 'PartialEq>::eq') or (x[2][0] == 'bin' and x[2][1] == 'Eq')) and x[3] == 1
+                    d = [x for x in (p.cdecisions() if hasattr(p, 'cdecisions') else p.decisions) if (is_call(x[2], 'PartialEq>::eq') or (x[2][0] == 'bin' and x[2][1] == 'Eq')) and x[3] == 1
                          and any(y[0] == 'param' and y[2] == 3 for y in walk(x[2]))]
                     # the other side is the pattern byte at the current position: string.get(pos) or string[pos]
                     def is_pos(z):
@@ -260,7 +271,7 @@ def r18_2(ctx):
                         return (z[0] == 'variant' and z[2] == 'Some') or (z[0] == 'okof' and z[1][0] == 'param')
                     elem = bool(d) and (any(is_call(y, '<impl [T]>::get') for y in walk(d[-1][2]))
                                         or any(y[0] == 'index' and any(z[0] == 'field' and z[2] == 'string' for z in walk(y[1])) and any(is_pos(z) for z in walk(y[2])) for y in walk(d[-1][2])))
-                    adv = bool(d) and elem and rv[2][0][1][0] == 'bin' and rv[2][0][1][1] == 'Add' and rv[2][0][1][3] == ('const', 1) and any(is_pos(z) for z in walk(rv[2][0][1][2]))
+                    adv = adv or (bool(d) and elem and rv[2][0][1][0] == 'bin' and rv[2][0][1][1] == 'Add' and rv[2][0][1][3] == ('const', 1) and any(is_pos(z) for z in walk(rv[2][0][1][2])))
         ctx.check(R, adv, 'Str:advance', 'Str::accept must advance by one exactly when the pattern byte at the current position equals the input byte', fn=acc)
     # Subsequence: will_always_match(s) = (s == len); accept keeps s when s == len; is_match is the same predicate
     ty = "Subsequence<'a>"
